@@ -391,6 +391,41 @@ impl Check {
         }
     }
 
+    /// The replay tier: committed minimal cases of findings that were repaired (and of open ones) under
+    /// `/verif/regressions/<id>/*.json` (same format as a replay file) are evaluated before anything is generated
+    /// for the section they belong to. A violation is handled like any other (a repaired defect that returns is
+    /// reported; an open known finding is counted as a known hit).
+    fn run_regressions<C>(&self, name: &str, f: &(impl Fn(&C) -> Report + Sync))
+    where
+        C: Debug + Clone + Serialize + DeserializeOwned,
+    {
+        let dir = self.verif_root.join("regressions").join(&self.id);
+        let Ok(rd) = std::fs::read_dir(&dir) else { return };
+        let mut files: Vec<PathBuf> = rd.filter_map(|e| e.ok()).map(|e| e.path()).filter(|p| p.extension().is_some_and(|x| x == "json")).collect();
+        files.sort();
+        for p in files {
+            let Ok(txt) = std::fs::read_to_string(&p) else { continue };
+            let Ok(v) = serde_json::from_str::<Value>(&txt) else { continue };
+            if v.get("section").and_then(|s| s.as_str()) != Some(name) {
+                continue;
+            }
+            let case: C = match serde_json::from_value(v["case"].clone()) {
+                Ok(c) => c,
+                Err(_) => {
+                    let mut st = self.stats.lock().unwrap();
+                    *st.labels.entry("regression-case:undecodable".to_string()).or_insert(0) += 1;
+                    continue;
+                }
+            };
+            let mut rep = self.eval(f, &case);
+            rep.label("regression-case");
+            self.record(name, &rep, || v["case"].clone());
+            if let Outcome::Violation { key, what } = &rep.outcome {
+                self.handle_violation(name, key, &format!("{what} [regression case {}]", p.display()), v["case"].clone());
+            }
+        }
+    }
+
     /// Evaluate one case through the engine (panic of the case function itself = harness/CUT panic that the
     /// case did not anticipate; it is reported as a violation with key `panic:<location>` so that a crash in
     /// the code under test can never be silently swallowed).
@@ -437,6 +472,7 @@ impl Check {
         }
         let t0 = Instant::now();
         let before = self.stats.lock().unwrap().evaluations;
+        self.run_regressions(name, &f);
         let threads = self.threads.max(1).min(cases.max(1) as usize);
         let per = cases.div_ceil(threads as u32);
         std::thread::scope(|scope| {
@@ -540,6 +576,7 @@ impl Check {
         }
         let t0 = Instant::now();
         let before = self.stats.lock().unwrap().evaluations;
+        self.run_regressions(name, &f);
         let items: Vec<C> = items.collect();
         let next = std::sync::atomic::AtomicUsize::new(0);
         std::thread::scope(|scope| {
